@@ -20,6 +20,11 @@ CLAIMED["C04"] = ("ovf-codec", "exploration",
   "Reference-built valid streams of every protocol/cipher/direction/VMess mask are delivered through the real tokio_util FramedRead and the real WebSocketFramed in generated segmentations (and only a prefix of them), on a paused single-thread runtime; at quiescence the released payload must equal exactly the complete frames delivered, without error, with the target-carrying item first. Every single cut position of one short stream per decoder configuration is enumerated. Datagram-in-stream framings (VMess UDP, Trojan UDP) likewise. Exploration of the 2^(n-1) segmentations, exhaustive only for single cuts of the enumerated streams.",
   "Trusted: reference encoder (tied to the implementation by C03), tokio's paused-clock auto-advance as the definition of quiescence, tokio duplex + tokio-websockets as the message transport.", "DESIGN.md 5/C04")
 
+CLAIMED["C05"] = ("ovf-codec", "exploration",
+  "mutation-based metamorphic property testing (tamper a reference-built stream, released plaintext must be a prefix cut before the tamper point), exhaustive single-bit flips and truncations of enumerated streams",
+  "Reference-built encrypted streams and datagrams with known plaintext and unit boundaries are mutated (bit flips, truncation, frame delete/dup/swap, garbage frames, edits, insertions, reflection, cross-session and cross-direction splices) and delivered through the real FramedRead/WebSocketFramed with the server's error-skipping consumer; released bytes must be a prefix of the sender's plaintext no longer than the frames complete before the first changed authenticated byte; tampered or reflected datagrams must yield no item. Exhaustive for every byte position / truncation point of one 3-frame stream per decoder configuration; exploration otherwise.",
+  "Trusted: reference encoder and its unit table; RustCrypto AEADs. Trojan is out of scope (not an encrypted protocol).", "DESIGN.md 5/C05")
+
 PENDING = {}
 
 def main():
